@@ -489,6 +489,26 @@ def ast_constants() -> dict:
         if isinstance(node, ast.Compare) and ast.unparse(node.left) == "len(packet)" and isinstance(node.ops[0], ast.Lt):
             guard = _int(node.comparators[0])
     c["cell"] = {"hdr_off": hdr[1], "hdr_size": struct.calcsize(hdr[0]), "msg_start": msg_start, "guard": guard}
+    # Network.get_verified_by_address runs in Community.on_packet before the prefix gate and outside the try:
+    # are all its dict accesses of the non-raising kind?  (subscript loads on self.<dict> and one-argument .pop raise)
+    tree = ast.parse((REPO / "ipv8/peerdiscovery/network.py").read_text())
+    fn = _func(tree, "Network", "get_verified_by_address")
+    raising = []
+    for node in ast.walk(fn):
+        if isinstance(node, ast.Subscript) and isinstance(node.ctx, ast.Load) and ast.unparse(node.value).startswith("self."):
+            raising.append(ast.unparse(node))
+        if isinstance(node, ast.Call) and isinstance(node.func, ast.Attribute) and node.func.attr == "pop" \
+                and ast.unparse(node.func.value).startswith("self.") and len(node.args) + len(node.keywords) < 2:
+            raising.append(ast.unparse(node))
+        if isinstance(node, ast.Raise):
+            raising.append("raise")
+    c["lookup"] = {"safe": not raising, "raising": raising}
+    # … and Community.on_packet must call it exactly in the shape the model assumes (outside the try)
+    tree = ast.parse((REPO / "ipv8/community.py").read_text())
+    fn = _func(tree, "Community", "on_packet")
+    calls = [n for n in ast.walk(fn) if isinstance(n, ast.Call) and ast.unparse(n.func).endswith("get_verified_by_address")]
+    if len(calls) != 1 or ast.unparse(calls[0].func) != "self.network.get_verified_by_address":
+        raise TranslatorError("Community.on_packet: the sender lookup is not a single self.network.get_verified_by_address call")
     return c
 
 
@@ -578,6 +598,8 @@ def translate(t: dict | None = None) -> str:
         f"def cellMsgStart : Nat := {a['cell']['msg_start']}",
         f"def cellGuard : Nat := {a['cell']['guard']}",
         f"def noCryptoPackets : List Nat := {lv['no_crypto']}",
+        "/-- Network.get_verified_by_address: every dict access is of the non-raising kind (.get / .pop(k, d) / in) -/",
+        f"def lookupDictSafe : Bool := {b(a['lookup']['safe'])}",
         "",
         "/-- the live packer registry (formats that need a class argument appear through `payloads`) -/",
         "def packers : List (String × Fmt) := [",
